@@ -79,11 +79,16 @@ def gen_line(rng, pr: Profile) -> tuple[str, str]:
         return rng.choice(VERSION_PAYLOADS_BAD if rng.random() < pr.bad_version else VERSION_PAYLOADS_OK)
 
     if kind == "node_pres":
-        return kind, f"{n};255;0;{ack};{rng.choice([17, 18])};{ver()}"
+        # mostly the two node types; sometimes a sensor type on the system child (still a node
+        # presentation: what decides is the child id, not the type)
+        ptype = rng.choice([17, 18]) if rng.random() < 0.85 else rng.choice([0, 3, 6, 38])
+        return kind, f"{n};255;0;{ack};{ptype};{ver()}"
     if kind == "gw_pres":
         return kind, f"0;255;0;{ack};18;{ver()}"
     if kind == "child_pres":
-        return kind, f"{n};{c};0;{ack};{rng.choice([0, 3, 6, 38])};{payload(False)}"
+        # ... and sometimes a node type on an ordinary child (still a child presentation)
+        ptype = rng.choice([0, 3, 6, 38]) if rng.random() < 0.85 else rng.choice([17, 18])
+        return kind, f"{n};{c};0;{ack};{ptype};{payload(False)}"
     if kind == "set":
         return kind, f"{n};{c};1;{ack};{rng.choice(pr.vtypes)};{payload()}"
     if kind == "req":
